@@ -1,6 +1,6 @@
 # C06 — no signature leaves relic without an audit record
 import collections, json, os, subprocess
-from vlib.common import BUILD, REPO, GOENV, run as sh
+from vlib.common import BUILD, REPO, GOENV, Hex, run as sh
 
 FP = ["server:Server.serveSign", "internal/signinit:", "lib/audit:", "cmdline/token:.signCmd"]
 HASHNAME = {"": "SHA-256", "sha512": "SHA-512", "sha384": "SHA-384"}
@@ -228,8 +228,255 @@ def compare_appenders(kind, s, r, m):
     return None
 
 
+
+# ---------------------------------------------------------------------------------------------------------------------
+# the CONTENT of the record over histories inside one server process (harness/p/c06/hist.go)
+
+import hashlib
+
+DIGEST = {"": ("SHA-256", 5), "md5": ("MD5", 2), "sha1": ("SHA1", 3), "sha224": ("SHA-224", 4), "sha256": ("SHA-256", 5),
+          "sha384": ("SHA-384", 6), "sha512": ("SHA-512", 7), "sha-512": ("SHA-512", 7)}
+HASHLIB = {2: "md5", 3: "sha1", 4: "sha224", 5: "sha256", 6: "sha384", 7: "sha512"}
+HASHNAMES = {2: "MD5", 3: "SHA1", 4: "SHA-224", 5: "SHA-256", 6: "SHA-384", 7: "SHA-512"}   # registry names as relic spells them
+
+
+def ldap_dn(rdns):
+    """LDAP style of a name whose values need no quoting: most specific first, ', ' between"""
+    return ", ".join("%s=%s" % (r["t"], r["v"]) for r in reversed(rdns or []))
+
+
+def openssl_dn(rdns):
+    return "".join("/%s=%s" % (r["t"], r["v"]) for r in (rdns or []))
+
+
+def hist_spec(h, upto):
+    sp = dict(h["spec"])
+    sp["steps"] = h["spec"]["steps"][:upto + 1]
+    return {"kind": "history", "hist": sp}
+
+
+def judge_history(ctx, h, vals, meta, dist, distinct):
+    """model-free: every returned signature has exactly one record, and the record names what the SIGNATURE ITSELF names
+    (certificate, digest), what the configuration written by the harness says (key section) and what the request carried
+    (signature type, client, address, file name).  Queues the model case.  Returns the number of requests judged."""
+    if h.get("setup_err"):
+        ctx.violation("C06:harness-setup", "history %s could not be run: %s %s" % (h.get("name"), h["setup_err"], (h.get("stderr") or "")[-200:]), {"history": h}, False)
+        return 0
+    n = 0
+    model_reqs, model_obs = [], []
+    both = h["spec"].get("sinks") == "both"
+    for i, s in enumerate(h["steps"] or []):
+        for k in ("digest", "client", "filename", "sigtype", "key", "cert"):
+            s.setdefault(k, "")
+        if s["op"] != "sign":
+            if s.get("err"):
+                ctx.violation("C06:harness-setup", "history %s step %d: %s" % (h["name"], i, s["err"]), {"history": dict(h, steps=[s])}, False)
+            continue
+        n += 1
+        dist["history/%s/%s" % (s["sigtype"], "2xx" if s["returned"] else str(s["status"]))] += 1
+        distinct.add(json.dumps(["history", s["key"], s["sigtype"], s["digest"], s["client"], s.get("disk_x509"), s.get("disk_pgp"), s["status"]]))
+        rep = {"history": {"name": h["name"], "step": i, "observed": s, "steps_so_far": h["spec"]["steps"][:i + 1]}, "replay_spec": hist_spec(h, i)}
+        what = "history '%s', request %d (key %s, sigtype %s, client %s)" % (h["name"], i, s["key"], s["sigtype"], s["client"] or "-")
+        lines = s.get("new_lines") or []
+        cl = (h["clients"] or {}).get(s["client"])
+        dg = DIGEST.get((s["digest"] or "").lower())
+        # ---- what must be refused
+        if s["returned"] and (cl is None or not cl["nickname"]):
+            ctx.violation("C06:spec:history-unknown-client-served", "%s: a signature was returned to a client that is not configured" % what, rep)
+        if not s["returned"]:
+            if lines:
+                ctx.violation("C06:spec:record-without-signature", "%s: status %d, no signature returned, but %d audit line(s) appended with healthy sinks" % (what, s["status"], len(lines)), rep, False)
+            # (the OpenPGP library refuses to sign with MD5, SHA-1 and SHA-224: those requests end in 500 and nothing leaves)
+            expect_ok = cl is not None and cl["nickname"] and dg is not None and not (s["sigtype"] == "pgp" and not s.get("disk_pgp")) \
+                and not (s["sigtype"] == "pgp" and dg[0] in ("MD5", "SHA1", "SHA-224"))
+            if expect_ok:
+                ctx.violation("C06:spec:healthy-sinks-refused", "%s: refused with status %d although key, client, digest and sinks are in order" % (what, s["status"]), rep)
+            elif cl is not None and cl["nickname"] and dg is not None:
+                model_reqs.append(model_req(h, s, dg))
+                model_obs.append((i, s))
+            continue
+        # ---- a signature left relic: exactly one record
+        if len(lines) != 1:
+            ctx.violation("C06:spec:signature-record-missing-or-wrong", "%s: signature returned with %d audit lines appended instead of one" % (what, len(lines)), rep)
+            continue
+        try:
+            rec = json.loads(lines[0])
+            assert isinstance(rec, dict)
+        except Exception:
+            ctx.violation("C06:spec:signature-record-missing-or-wrong", "%s: the appended line is not a JSON object: %r" % (what, lines[0][:80]), rep)
+            continue
+        if s.get("sig_err"):
+            ctx.violation("C06:harness-setup", "%s: the response could not be read as a %s signature: %s" % (what, s.get("sig_kind"), s["sig_err"]), rep, False)
+            continue
+        bad = {}
+
+        def want(group, k, v):
+            if rec.get(k) != v:
+                bad.setdefault(group, []).append("%s is %r, should be %r" % (k, rec.get(k), v))
+        # certificate: what the signature itself names
+        if s["sig_kind"] == "pkcs7":
+            c = s["signer"]
+            want("certificate", "sig.x509.fingerprint", c["sha1"])
+            want("certificate", "sig.x509.subject", ldap_dn(c["subject"]))
+            want("certificate", "sig.x509.issuer", ldap_dn(c["issuer"]))
+            used = "certificate %s (%s, issuer %s, SHA-1 %s)" % (c.get("label") or "?", ldap_dn(c["subject"]), ldap_dn(c["issuer"]), c["sha1"])
+            named = "(%s, issuer %s, SHA-1 %s)" % (rec.get("sig.x509.subject"), rec.get("sig.x509.issuer"), rec.get("sig.x509.fingerprint"))
+        else:
+            want("certificate", "sig.pgp.fingerprint", s["pgp_issuer"])
+            if (rec.get("sig.pgp.fingerprint") or "")[-16:] != s["pgp_key_id"]:
+                bad.setdefault("certificate", []).append("key id of sig.pgp.fingerprint %r is not the issuer key id %s of the signature" % (rec.get("sig.pgp.fingerprint"), s["pgp_key_id"]))
+            pd = (h["pgps"] or {}).get(s.get("pgp_label") or "")
+            if pd:
+                want("certificate", "sig.pgp.entity", pd["name"])
+            used = "PGP certificate %s (fingerprint %s)" % (s.get("pgp_label") or "?", s["pgp_issuer"])
+            named = "(%s, fingerprint %s)" % (rec.get("sig.pgp.entity"), rec.get("sig.pgp.fingerprint"))
+        want("digest", "sig.hash", s["sig_hash"])
+        if dg:
+            want("digest", "sig.hash", dg[0])
+        want("key", "sig.keyname", s["section"])
+        want("signature type", "sig.type", s["sigtype"])
+        want("file name", "client.filename", s["filename"])
+        want("client identity", "client.ip", s["remote_ip"])
+        if cl:
+            want("client identity", "client.name", cl["nickname"])
+            if cl["by_ca"]:
+                want("client identity", "client.dn", openssl_dn(cl["subject"]))
+            elif "client.dn" in rec:
+                bad.setdefault("client identity", []).append("client.dn %r for a client recognised by its key" % rec["client.dn"])
+        for group, msgs in bad.items():
+            key = "C06:spec:record-names-other-" + group.replace(" ", "-")
+            if group == "certificate":
+                ctx.violation(key, "%s: the signature returned to the client was made under %s but the audit record appended for it names %s: %s" %
+                              (what, used, named, "; ".join(msgs[:3])), rep)
+            else:
+                ctx.violation(key, "%s: the audit record of the returned signature does not name the %s used: %s" % (what, group, "; ".join(msgs[:3])), rep)
+        # the certificate that was NOT used for this signature type: recorded from what is configured now (not a property violation if stale)
+        other = []
+        if s["sig_kind"] == "pgp" and s.get("disk_x509"):
+            c = h["certs"][s["disk_x509"]]
+            if rec.get("sig.x509.fingerprint") != c["sha1"]:
+                other.append("sig.x509.fingerprint %r, X.509 certificate in place is %s (%s)" % (rec.get("sig.x509.fingerprint"), s["disk_x509"], c["sha1"]))
+        if s["sig_kind"] == "pkcs7" and s.get("disk_pgp"):
+            pd = h["pgps"][s["disk_pgp"]]
+            if rec.get("sig.pgp.fingerprint") != pd["fingerprint"]:
+                other.append("sig.pgp.fingerprint %r, PGP certificate in place is %s (%s)" % (rec.get("sig.pgp.fingerprint"), s["disk_pgp"], pd["fingerprint"]))
+        if other and not bad:
+            ctx.violation("C06:spec:record-names-stale-unused-certificate", "%s: the record is right about the certificate that signed but names another one for the type not used: %s" %
+                          (what, "; ".join(other)), rep, False)
+        # the broker got the same record
+        if both:
+            msgs = s.get("new_msgs") or []
+            same = len(msgs) == 1
+            if same:
+                try:
+                    same = json.loads(msgs[0]) == rec
+                except ValueError:
+                    same = False
+            if not same:
+                ctx.violation("C06:spec:amqp-message-missing-or-wrong", "%s: %d message(s) stored by the broker; not exactly one equal to the line in the audit file" % (what, len(msgs)), rep)
+        if dg is not None:
+            model_reqs.append(model_req(h, s, dg))
+            model_obs.append((i, s))
+    if h["bad_lines"] or h["lines"] != sum(1 for s in h["steps"] or [] if s["op"] == "sign" and s["returned"]):
+        ctx.violation("C06:spec:record-count", "history '%s': %d audit lines for %d returned signatures, %d malformed" %
+                      (h["name"], h["lines"], sum(1 for s in h["steps"] or [] if s["op"] == "sign" and s["returned"]), len(h["bad_lines"] or [])),
+                      {"history": dict(h, steps=[]), "replay_spec": hist_spec(h, len(h["spec"]["steps"]))})
+    if model_reqs:
+        vals.append([5, model_reqs])
+        meta.append(("history", h, model_obs))
+    return n
+
+
+def model_req(h, s, dg):
+    """the request as the model takes it: what was asked, and what InitKey finds on disk now"""
+    cl = h["clients"][s["client"]]
+    leaf, pgp = [], []
+    if s.get("disk_x509"):
+        c = h["certs"][s["disk_x509"]]
+        leaf = [[Hex(c["der"]), Hex(c["raw_subject"]), Hex(c["raw_issuer"]), Hex(c["raw_spki"]), Hex(c["raw_tbs"])]]
+    if s.get("disk_pgp"):
+        pd = h["pgps"][s["disk_pgp"]]
+        pgp = [[Hex(pd["fingerprint"]), Hex(pd["key_id"]), pd["name"].encode()]]
+    x509 = s["sigtype"] != "pgp"
+    size = len(("payload for " + s["filename"]).encode()) if s["sigtype"] == "pgp" else 13580
+    return [s["key"].encode(), s["sigtype"].encode(), dg[1], s["filename"].encode(), b"198.51.100.23:5151",
+            [0, cl["nickname"].encode(), openssl_dn(cl["subject"]).encode() if cl["by_ca"] else b""], False, s["section"].encode(), leaf, pgp,
+            x509, not x509, h["spec"].get("sinks") == "both", True, h["hostname"].encode(), 2 if x509 else 0, 0, size,
+            s["returned"] or s["status"] != 500]     # whether the signer itself succeeds is the environment's answer
+
+
+def eval_term(t, h):
+    """value of a term of the model (C06/Run.v term_of); None when it cannot be evaluated here"""
+    tag = t[0]
+    if tag == 0:
+        return bytes.fromhex(t[1])
+    if tag == 1:
+        return t[1]
+    if tag == 7:
+        return bool(t[1])
+    if tag == 4:
+        return [eval_term(x, h) for x in t[1]]
+    if tag == 5:
+        return {bytes.fromhex(kv[0]).decode(): eval_term(kv[1], h) for kv in t[2]}
+    if tag != 2:
+        return None
+    f, args = bytes.fromhex(t[1]).decode(), [eval_term(a, h) for a in t[2]]
+    if any(a is None for a in args):
+        return None
+    if f == "hex":
+        return args[0].hex().encode()
+    if f == "digest":
+        return hashlib.new(HASHLIB[args[0]], b"".join(args[1])).digest() if args[0] in HASHLIB else None
+    if f == "x509tools.HashNames[]":
+        return HASHNAMES.get(args[0], "").encode()
+    if f == "x509tools.FormatPkixName" and args[1] == 1:
+        for c in (h["certs"] or {}).values():
+            if bytes.fromhex(c["raw_subject"]) == args[0]:
+                return ldap_dn(c["subject"]).encode()
+            if bytes.fromhex(c["raw_issuer"]) == args[0]:
+                return ldap_dn(c["issuer"]).encode()
+        return None
+    if f == "zhttp.StripPort":
+        return args[0].rsplit(b":", 1)[0]
+    if f == "pgptools.EntityName":
+        return args[0].get("Identities")
+    return None
+
+
+SKIP_VALUES = ("sig.timestamp", "perf.elapsed.ms", "perf.size.patch")
+
+
+def compare_history(h, obs, m):
+    """model (the extracted interpreter over the translated source, state threaded through the history) vs the audit lines"""
+    diffs = []
+    for (i, s), out in zip(obs, m):
+        answered, files, amqps, why = out
+        lines = s.get("new_lines") or []
+        if why:
+            diffs.append("request %d: the model is stuck: %s" % (i, bytes.fromhex(why).decode(errors="replace")[:120]))
+            continue
+        if bool(answered) != bool(s["returned"]) or len(files) != len(lines):
+            diffs.append("request %d: model (answered, records) = (%s, %d) vs implementation (%s, %d)" % (i, bool(answered), len(files), s["returned"], len(lines)))
+            continue
+        for rec_m, line in zip(files, lines):
+            rec = json.loads(line)
+            keys_m = {bytes.fromhex(kv[0]).decode() for kv in rec_m}
+            if keys_m != set(rec):
+                diffs.append("request %d: attributes of the record: model %s vs implementation %s" % (i, sorted(keys_m - set(rec)), sorted(set(rec) - keys_m)))
+                continue
+            for kv in rec_m:
+                k = bytes.fromhex(kv[0]).decode()
+                v = eval_term(kv[1], h)
+                if k in SKIP_VALUES or v is None:
+                    continue
+                v = v.decode(errors="replace") if isinstance(v, bytes) else v
+                if rec[k] != v:
+                    diffs.append("request %d: %s: model %r vs implementation %r" % (i, k, v, rec[k]))
+    return diffs
+
+
 def run(ctx, replay=None):
-    st = ctx.prepare(["C06_gen"], ["C06"], "C06.Run")
+    st = ctx.prepare(["C06_gen", "C06rec_gen"], ["C06"], "C06.Run")
     if not st["harness_ok"]:
         return ctx.finish("proof", ctx.proof_coverage([], FP), [])
     try:
@@ -259,6 +506,9 @@ def body(ctx, st, replay):
     dist = collections.Counter()
     vals, meta = [], []
     for s in scen:
+        if s["kind"] == "history":
+            n_eval += judge_history(ctx, s, vals, meta, dist, distinct)
+            continue
         if s["kind"] == "appenders":
             n_eval += judge_appenders(ctx, s, vals, meta, dist, distinct)
             continue
@@ -348,6 +598,14 @@ def body(ctx, st, replay):
     n_corr = 0
     if st["model_ok"] and vals:
         for (kind, s, r), m in zip(meta, ctx.run_model(vals)):
+            if kind == "history":
+                diffs = compare_history(s, r, m)
+                if diffs:
+                    n_corr += 1
+                    if n_corr <= 2 and not any(v[2] for v in ctx.violations):
+                        ctx.violation("C06:correspondence:record", "history '%s': %s" % (s["name"], "; ".join(diffs[:3])),
+                                      {"history": dict(s, steps=[o for _, o in r][:6]), "replay_spec": hist_spec(s, len(s["spec"]["steps"])), "broken": "correspondence C06.Run (Record.v)"}, False)
+                continue
             if kind in ("append", "sched"):
                 diff = compare_appenders(kind, s, r, m)
                 if diff:
@@ -382,21 +640,27 @@ def body(ctx, st, replay):
     stand = [s for s in scen if s["kind"] == "standalone"]
     if any(s["exit"] == 0 and s["file_conf"] and not record_errors((s.get("new_lines") or ["{}"])[0], {}) and "client.filename" not in (s.get("new_lines") or ["{}"])[0] for s in stand):
         ctx.notes.append("observation: the record written by standalone `relic sign` names key, type, digest and certificate but carries no file name / client attribute")
-    cov = ctx.proof_coverage(["srcgen: ordered call tables of serveSign, signCmd, PublishAudit, AppendTo; sink-selection conditions; AppendTo statement by statement as an I/O program (writer of every Write / WriteByte / WriteString / Fprintf / Flush, payloads, buffer appends, bufio sizes, error tests, branches on the record length, open(2) flags); bufio's default buffer size and the runtime's cap on one write(2) from GOROOT",
+    cov = ctx.proof_coverage(["srcgen (C06rec_gen): lib/audit New / SetPgpCert / SetX509Cert / SetTimestamp / SetCounterSignature / SetMimeType / GetMimeType / Marshal and every function of the package they reach, x509tools.FormatSubject / FormatIssuer, authmodel *.AuditContext, signers SignOpts.SetBinPatch / SetPkcs7 / WithContext, signinit.Init / PublishAudit, serveSign and signCmd from their call of signinit.Init on, translated statement by statement (reads and writes of package-level variables become explicit); the assignments before that call; lib/x509tools.HashNames; inventories: package-level variables of lib/audit, internal/signinit, internal/authmodel; every assignment to an audit attribute and every call of audit.New / SetX509Cert / SetPgpCert / PublishAudit anywhere in relic",
+                              "harness (record content): histories inside ONE server process each (real Handler(), production token opening, file tokens): two configured keys on two tokens sharing one private key file with different X.509 and PGP certificates, an alias, a key of its own; certificate files replaced on disk between requests (renewal with the same name, another subject, another CA, same subject and issuer with a new serial; PGP certificates with the same user id); five client certificates (two recognised through a CA under one nickname, one unknown); digests md5 .. sha512; unusual file names; the signer certificate / issuer fingerprint / digest are read from each RETURNED signature (PKCS#7 by encoding/asn1, OpenPGP packet) and compared with the one audit line that request appended",
+                              "srcgen: ordered call tables of serveSign, signCmd, PublishAudit, AppendTo; sink-selection conditions; AppendTo statement by statement as an I/O program (writer of every Write / WriteByte / WriteString / Fprintf / Flush, payloads, buffer appends, bufio sizes, error tests, branches on the record length, open(2) flags); bufio's default buffer size and the runtime's cap on one write(2) from GOROOT",
                               "harness (system calls): the real audit.Info.AppendTo on records of exact JSON length (long valid file names) around 4096 / 8192 / 16384 / 32768 / 65536 and up to 128 KiB (1 MiB thorough) under strace -f -y -P <audit file> -e trace=write: calls per record, their sizes, injected ENOSPC on the k-th call, delayed return of every call with 3 processes x 3 threads and 8 threads appending at once; 16 goroutines and 4 processes x 4 goroutines appending mixed lengths without strace; the file parsed line by line",
                               "harness: in-process server (server.VerifNew + production openTokens, real file token, real signers) with audit file faults (missing directory, directory in place of file, /dev/full, immutable file) and an in-process AMQP 0-9-1 broker written from the protocol specification (harness/p/c06/broker.go: PLAIN auth, exchange.declare, confirm.select, publish, ack/nack) with behaviours accept / refuse / drop after publish / nack / slow ack / reject credentials; response writer that snapshots both sinks when the response starts; real `relic sign` binary for the standalone path; 2 x 384+ concurrent signing requests",
                               "O_APPEND single-write atomicity is the kernel's; the harness broker stands in for a real broker (TLS / EXTERNAL auth not exercised)"], FP)
     seq = [s for s in scen if s["kind"] == "sequential"]
     pick = [s for s in seq if s["sinks"] == "both" and (s["file_fault"], s["broker"]) in (("", "accept"), ("disk-full", "accept"), ("", "nack"))] or seq[:3]
     cov.update({"evaluations": n_eval, "distinct_nontrivial": len(distinct),
-                "rule": "sinks {none, file, amqp, both} x audit-file fault {none, missing dir, is a directory, /dev/full, read-only} x broker behaviour {accept, refuse, accept_then_drop, nack, slow, reject_auth} x 9 request kinds (3 signature types, alias, 2 clients, refused / malformed / unsignable requests), sequentially; concurrent batches 32x12 (quick) / 64x60 (thorough) with file names of 0.2-70 KB (records on both sides of 4096 / 8192 / 65536 bytes) on the file alone and on file + healthy broker; standalone binary under the same sink grid (without is-a-directory and reject_auth)",
+                "rule": "record content: %d histories (7 fixed + seeded random ones, 6 quick / 40 thorough) of 6-19 steps {sign(key in release / release-ev / alias / other, sigtype cat | pgp, digest, client, file name), replace X.509 file, replace PGP file}, each in a process of its own; every returned signature judged against its own audit line and against the extracted interpreter run over the whole history; " % len([s for s in scen if s["kind"] == "history"]) +
+                        "sinks {none, file, amqp, both} x audit-file fault {none, missing dir, is a directory, /dev/full, read-only} x broker behaviour {accept, refuse, accept_then_drop, nack, slow, reject_auth} x 9 request kinds (3 signature types, alias, 2 clients, refused / malformed / unsignable requests), sequentially; concurrent batches 32x12 (quick) / 64x60 (thorough) with file names of 0.2-70 KB (records on both sides of 4096 / 8192 / 65536 bytes) on the file alone and on file + healthy broker; standalone binary under the same sink grid (without is-a-directory and reject_auth)",
                 "input_distribution": dict(sorted(dist.items())),
-                "scenario_kinds": {"sequential": len(seq), "concurrent": len([s for s in scen if s["kind"] == "concurrent"]), "standalone": len(stand),
+                "scenario_kinds": {"history": len([s for s in scen if s["kind"] == "history"]), "sequential": len(seq), "concurrent": len([s for s in scen if s["kind"] == "concurrent"]), "standalone": len(stand),
                                    "appenders": collections.Counter(s["mode"] for s in scen if s["kind"] == "appenders")},
                 "samples": [{"sinks": s["sinks"], "fault": s["file_fault"], "broker": s["broker"], "statuses": [r["status"] for r in s["reqs"]],
                              "audit_lines": s["lines"], "broker_stored": s["stored"], "broker_received": s["received"]} for s in pick[:3]],
+                "history_samples": [{"name": h["name"], "steps": [(x["op"], x["key"], x.get("cert") or x.get("sigtype"), x.get("status")) for x in (h["steps"] or [])][:8]}
+                                    for h in [s for s in scen if s["kind"] == "history"][:2]],
                 "standalone": [{"sinks": s["sinks"], "fault": s["file_fault"], "broker": s["broker"], "exit": s["exit"], "output_exists": s["output_exists"]} for s in stand],
                 "model_mismatches": n_corr})
     return ctx.finish("proof", cov, ["each write(2) on an O_APPEND descriptor is atomic with respect to other writers (the kernel's); os.File.Write issues one write(2) for up to 2^30 bytes and a regular file takes it whole or fails (short writes not modelled)",
                                      "encoding/json output contains no raw line feed (checked on every line of the real file)",
-                                     "harness AMQP broker in place of a real one (plain TCP, SASL PLAIN)"])
+                                     "harness AMQP broker in place of a real one (plain TCP, SASL PLAIN)",
+                                     "record content: functions of other packages the translated code calls (SHA-1, x509tools.FormatPkixName, pgptools.EntityName, zhttp.StripPort, filepath.Base, the table lookup HashNames[h]) are uninterpreted symbols in the theorems; the harness compares their values on real certificates; certloader / token (what InitKey loads) is C07's; signer modules are an oracle that may add attributes under keys srcgen lists (none of them an identity key)"])
